@@ -214,6 +214,18 @@ def evm_grid(ctx, differ):
         if d is not None and found < 3:
             found += 1
             failing(ctx, "optimised IR behaves differently from unoptimised IR (seq-level rewrite)", d, key="iropt:seq:" + str(nm))
+    # permanent probe of the known IR-level finding `merge-negative-literal` (python adds literal offsets / lengths as
+    # unbounded ints, the EVM wraps them): both replays, reported under one stable key
+    probes = [
+        ["seq", ["mstore", 0, 0], ["calldatacopy", 32, "calldatasize", -5], ["return", 0, 64]],
+        ["seq", ["mstore", 0, ["calldataload", -32]], ["mstore", 32, ["calldataload", 0]], ["return", 0, 64]],
+    ]
+    for prog in probes:
+        d = differ.run_program(prog, [(7, 9, 11, 13), (W - 1, 1, 2, 3)])
+        nm += 1
+        if d is not None:
+            d["note"] = "_merge_memzero / _merge_load with a negative literal length / source offset (hand-written IR only)"
+            report_once(ctx, "merge-negative-literal", "seq-level merge over a negative literal changes behaviour", d)
     ctx.corr["evm_seq_programs"] = nm
     ctx.corr["evm_grid_programs"] = n
     ctx.corr["evm_fold_programs"] = nl
